@@ -422,9 +422,13 @@ class Array:
 
         """
         array = self._checkarrayforappend(array)
-        fd.seek(0, 2)  # move to end
+        startpos = fd.seek(0, 2)  # move to end
         array.tofile(fd)
         fd.flush()
+        # numpy does not always report failed or partial writes
+        if os.fstat(fd.fileno()).st_size != startpos + array.nbytes:
+            raise OSError(f"could not write all {array.nbytes} bytes to "
+                          f"'{self._datapath}'")
         return array.shape[0]
 
     def iterappend(self, arrayiterable):
